@@ -95,20 +95,37 @@ var rR16w = RuleRef{Name: "R16w", Doc: "durability points and validation before 
 	// ReadAll: an entry at index i supersedes everything from i on: the slice is truncated before the append
 	if fn := c.P.Func(walPkg, "WAL.ReadAll"); fn != nil {
 		truncAppend, inPlace := 0, 0
-		for _, b := range fn.Blocks {
-			for _, in := range b.Instrs {
-				switch x := in.(type) {
-				case *ssa.Call:
-					if ap, ok := isAppend(x); ok && strings.Contains(ap.Type().String(), "raftpb.Entry") {
-						if sl, ok := ap.Call.Args[0].(*ssa.Slice); ok && sl.High != nil && sl.Low == nil {
-							truncAppend++
-						} else {
-							inPlace++
+		// ReadAll itself and the helpers of its package it hands the collected entries to
+		scan := []*ssa.Function{fn}
+		seenFn := map[*ssa.Function]bool{fn: true}
+		for i := 0; i < len(scan) && i < 8; i++ {
+			for _, b := range scan[i].Blocks {
+				for _, in := range b.Instrs {
+					if call, ok := in.(*ssa.Call); ok {
+						if cf := callee(call); cf != nil && cf.Blocks != nil && cf.Pkg == fn.Pkg && !seenFn[cf] && strings.Contains(cf.Signature.String(), "raftpb.Entry") {
+							seenFn[cf] = true
+							scan = append(scan, cf)
 						}
 					}
-				case *ssa.Store:
-					if ia, ok := x.Addr.(*ssa.IndexAddr); ok && strings.HasPrefix(ia.X.Type().String(), "[]") && strings.Contains(ia.X.Type().String(), "raftpb.Entry") {
-						inPlace++
+				}
+			}
+		}
+		for _, sf := range scan {
+			for _, b := range sf.Blocks {
+				for _, in := range b.Instrs {
+					switch x := in.(type) {
+					case *ssa.Call:
+						if ap, ok := isAppend(x); ok && strings.Contains(ap.Type().String(), "raftpb.Entry") {
+							if sl, ok := ap.Call.Args[0].(*ssa.Slice); ok && sl.High != nil && sl.Low == nil {
+								truncAppend++
+							} else {
+								inPlace++
+							}
+						}
+					case *ssa.Store:
+						if ia, ok := x.Addr.(*ssa.IndexAddr); ok && strings.HasPrefix(ia.X.Type().String(), "[]") && strings.Contains(ia.X.Type().String(), "raftpb.Entry") {
+							inPlace++
+						}
 					}
 				}
 			}
